@@ -216,12 +216,14 @@ class C14(Check):
                           None, None, 4, None, eps_a)
         if not ok:
             return
-        ok, out = guarded(c, 'result_independent_of_earlier_calls', self._run, c, K, 1, 'fifo', None, 1, admm)
+        eps_b = c.real('eps_b', 0)
+        ok, out = guarded(c, 'result_independent_of_earlier_calls', self._run, c, K, 1, 'fifo', None, 1, admm,
+                          None, None, 3, None, eps_b)
         if not ok:
             return
         after_history = out[0]
         loader.clear_caches()
-        fresh, _ = self._run(c, K, 1, 'fifo', admm=admm)
+        fresh, _ = self._run(c, K, 1, 'fifo', admm=admm, eps=eps_b)
         c.prove('result_independent_of_earlier_calls', results_equal(after_history, fresh))
 
     def cache_order(self, c):
